@@ -7,20 +7,6 @@ Open Scope Z_scope.
 Definition pmac (c : scalars) : val -> bool := if ver_lt (maxVersion c) (3, 3) then keep_old_mac else (fun _ => true).
 Definition pcipher (I : install) : val -> bool := if negb (i_tdes I) then not_3des else (fun _ => true).
 
-Lemma all_known_sub l t : all_known l t = Ok tt -> sub_tab l t = true.
-Proof.
-  unfold all_known, sub_tab, not_matching. intros H. apply guard_ok in H.
-  induction l as [|x xs IH]; cbn [forallb filter] in *; auto.
-  destruct (in_tab x t); cbn [negb] in *; [apply IH; exact H|discriminate H].
-Qed.
-
-Lemma sub_all_known l t : sub_tab l t = true -> all_known l t = Ok tt.
-Proof.
-  unfold all_known, sub_tab, not_matching. intros H. apply guard_ok.
-  induction l as [|x xs IH]; cbn [forallb filter] in *; auto.
-  apply andb_true_iff in H. destruct H as [H1 H2]. rewrite H1. cbn [negb]. apply IH. exact H2.
-Qed.
-
 Lemma forallb_filter_weak {A} (p q : A -> bool) l : forallb p l = true -> forallb p (filter q l) = true.
 Proof.
   induction l as [|x xs IH]; cbn [forallb filter]; auto. intros H. apply andb_true_iff in H. destruct H as [H1 H2].
@@ -36,14 +22,14 @@ Qed.
 Lemma forallb_filter_self {A} (q : A -> bool) l : forallb q (filter q l) = true.
 Proof. induction l as [|x xs IH]; cbn [filter forallb]; auto. destruct (q x) eqn:E; cbn [forallb]; [rewrite E|]; auto. Qed.
 
-Lemma filter_lt34_all l r : filter_lt34 l = Ok r ->
-  forallb (fun x => match x with VPair a b => ver_lt (a, b) (3, 4) | _ => false end) r = true.
+Lemma filter_range_all lo hi l r : filter_range lo hi l = Ok r ->
+  forallb (fun x => match x with VPair a b => in_range lo hi a b | _ => false end) r = true.
 Proof.
   revert r. induction l as [|x xs IH]; intros r H.
   - injection H as <-. reflexivity.
-  - destruct x; try discriminate H. cbn [filter_lt34] in H.
-    destruct (filter_lt34 xs) as [r'|]; [|discriminate H]. cbn [bind] in H. injection H as <-.
-    specialize (IH r' eq_refl). destruct (ver_lt (a, b) (3, 4)) eqn:E; [|exact IH].
+  - destruct x; try discriminate H. cbn [filter_range] in H.
+    destruct (filter_range lo hi xs) as [r'|]; [|discriminate H]. cbn [bind] in H. injection H as <-.
+    specialize (IH r' eq_refl). destruct (in_range lo hi a b) eqn:E; [|exact IH].
     cbn [forallb]. rewrite E, IH. reflexivity.
 Qed.
 
@@ -101,9 +87,7 @@ Qed.
 
 Lemma versions_W x0 x1 x3 x4 :
   cstep_versions (W x0 x1 x3 x4) c =
-  if ver_lt (maxVersion c) (3, 4)
-  then match filter_lt34 x4 with Ok l => Ok (W x0 x1 x3 l) | Err e => Err e end
-  else Ok (W x0 x1 x3 x4).
+  match filter_range (minVersion c) (maxVersion c) x4 with Ok l => Ok (W x0 x1 x3 l) | Err e => Err e end.
 Proof. reflexivity. Qed.
 
 (* decomposition of a successful run *)
@@ -111,7 +95,7 @@ Lemma cvalidate_V_inv x0 x1 x3 x4 v' :
   cvalidate T I (W x0 x1 x3 x4) c = Ok v' ->
   exists y4,
     cchecks_A T (W x0 x1 x3 x4) c = Ok tt /\
-    (if ver_lt (maxVersion c) (3, 4) then filter_lt34 x4 = Ok y4 else y4 = x4) /\
+    filter_range (minVersion c) (maxVersion c) x4 = Ok y4 /\
     sanityCheckExtensions T (W x0 x1 x3 x4) c = Ok tt /\
     cchecks_C T (W x0 x1 x3 x4) c = Ok tt /\
     isnil (filter (impl_available I) x3) = false /\ isnil (filter (pcipher I) x0) = false /\
@@ -129,8 +113,7 @@ Proof.
     destruct (cchecks_C T (W x0 x1 x3 x4) c) as [[]|]; [|discriminate Ht].
     destruct (isnil (filter (impl_available I) x3)); [discriminate Ht|].
     destruct (isnil (filter (pcipher I) x0)); [discriminate Ht|]. injection Ht as <-. auto. }
-  destruct (ver_lt (maxVersion c) (3, 4)).
-  - destruct (filter_lt34 x4) as [l|e]; [|discriminate H]. exists l. split; [reflexivity|]. split; [reflexivity|]. apply K. exact H.
-  - exists x4. split; [reflexivity|]. split; [reflexivity|]. apply K. exact H.
+  destruct (filter_range (minVersion c) (maxVersion c) x4) as [l|e]; [|discriminate H].
+  exists l. split; [reflexivity|]. split; [reflexivity|]. apply K. exact H.
 Qed.
 End Facts.
